@@ -242,7 +242,7 @@ fn end_to_end(rep: &mut Report, x: &Xlate) {
         while s < sessions {
             let mut rng = Rng::fork(seed, (s as u64) << 8 | 0x13);
             let li = s % 10;
-            let stream = typist.typing(&mut rng, len);
+            let stream = if s % 4 == 3 { typist.typematic_runs(&mut rng, len * 4) } else { typist.typing(&mut rng, len) };
             let r = guarded(|| {
                 let mut k2: Keyboard<DynLayout, ScancodeSet2> = Keyboard::new(ScancodeSet2::new(), dyn_layout(li, 0), HandleControl::MapLettersToUnicode);
                 let mut k1: Keyboard<DynLayout, ScancodeSet1> = Keyboard::new(ScancodeSet1::new(), dyn_layout(li, 0), HandleControl::MapLettersToUnicode);
